@@ -270,6 +270,7 @@ func chainable(stages [][]*GNode) bool {
 type bodyRec struct {
 	In, Out string
 	Failed  bool
+	OutV    vmap // the value a lambda produced
 }
 
 type runRec struct {
@@ -375,7 +376,7 @@ func (rr *runRec) body(n *GNode, in vmap) (vmap, error) {
 	}
 	out := vmap{outKey: outKey + "[" + inS + "]"}
 	rr.mu.Lock()
-	rr.execs[id] = append(rr.execs[id], bodyRec{In: inS, Out: render(out)})
+	rr.execs[id] = append(rr.execs[id], bodyRec{In: inS, Out: render(out), OutV: vmap{outKey: out[outKey]}})
 	rr.mu.Unlock()
 	return out, nil
 }
@@ -480,7 +481,7 @@ func (rr *runRec) lambda(n *GNode) *compose.Lambda {
 	return l
 }
 
-func nodeKey(k int) string { return fmt.Sprintf("k%d", k) }
+func nodeKey(k int) string    { return fmt.Sprintf("k%d", k) }
 func unitName(uid int) string { return fmt.Sprintf("u%d", uid) }
 
 func (rr *runRec) build(stages [][]*GNode, shared map[int]*compose.Lambda) (*compose.Graph[vmap, vmap], error) {
@@ -723,18 +724,20 @@ func call(r compose.Runnable[vmap, vmap], paradigm string, inChunks int, opts ..
 // ---------------------------------------------------------------- what the property expects (static)
 
 type expectation struct {
-	execs  map[int]int   // uid -> number of executions of the unit
-	failed map[int]bool  // uid -> the unit ends with an error (a failure or an interrupt)
-	paths  map[int][]int // uid -> key path from the top graph ([] for the graph itself)
-	kind   map[int]string
-	node   map[int]*GNode
-	calls  map[int]*GCall
-	ps     *planSt
+	execs   map[int]int   // uid -> number of executions of the unit
+	failed  map[int]bool  // uid -> the unit ends with an error (a failure or an interrupt)
+	paths   map[int][]int // uid -> key path from the top graph ([] for the graph itself)
+	kind    map[int]string
+	node    map[int]*GNode
+	calls   map[int]*GCall
+	errKind map[int]int  // uid -> outFail / outIntr for a unit that ends with an error
+	badOpts map[int]bool // uid -> the graph rejected its call options
+	ps      *planSt
 }
 
 func newExpectation(ps *planSt) *expectation {
 	return &expectation{execs: map[int]int{}, failed: map[int]bool{}, paths: map[int][]int{0: {}},
-		kind: map[int]string{0: "graph"}, node: map[int]*GNode{}, calls: map[int]*GCall{}, ps: ps}
+		kind: map[int]string{0: "graph"}, node: map[int]*GNode{}, calls: map[int]*GCall{}, errKind: map[int]int{}, badOpts: map[int]bool{}, ps: ps}
 }
 
 // planSt is where a run sequence (a run, and the runs that resume it after an interrupt) stands:
@@ -919,7 +922,7 @@ func subOpts(key int, opts []GOpt) []GOpt {
 func (x *expectation) graph(uid int, stages [][]*GNode, opts []GOpt, path []int) int {
 	x.execs[uid]++
 	if !optsOKDeep(stages, opts) {
-		x.failed[uid] = true
+		x.failed[uid], x.errKind[uid], x.badOpts[uid] = true, outFail, true
 		return outFail
 	}
 	for _, st := range stages {
@@ -944,7 +947,7 @@ func (x *expectation) graph(uid int, stages [][]*GNode, opts []GOpt, path []int)
 				x.execs[n.UID]++
 				o := x.ps.outcome(n, opts)
 				if o != outOK {
-					x.failed[n.UID] = true
+					x.failed[n.UID], x.errKind[n.UID] = true, o
 				}
 				note(o)
 			case "sub":
@@ -957,23 +960,25 @@ func (x *expectation) graph(uid int, stages [][]*GNode, opts []GOpt, path []int)
 				for _, c := range n.Calls {
 					x.execs[c.UID]++
 					x.paths[c.UID], x.kind[c.UID], x.calls[c.UID] = p, "call", c
-					if x.ps.left[c.UID] > 0 || c.Fails {
-						x.failed[c.UID] = true
+					if x.ps.left[c.UID] > 0 {
+						x.failed[c.UID], x.errKind[c.UID] = true, outIntr
+					} else if c.Fails {
+						x.failed[c.UID], x.errKind[c.UID] = true, outFail
 					}
 				}
 				o := x.ps.outcome(n, opts)
 				if o != outOK {
-					x.failed[n.UID] = true
+					x.failed[n.UID], x.errKind[n.UID] = true, o
 				}
 				note(o)
 			}
 		}
 		if f {
-			x.failed[uid] = true
+			x.failed[uid], x.errKind[uid] = true, outFail
 			return outFail
 		}
 		if i {
-			x.failed[uid] = true
+			x.failed[uid], x.errKind[uid] = true, outIntr
 			return outIntr
 		}
 	}
@@ -1296,6 +1301,7 @@ func runGraph(c *Case) lib.Result {
 	}
 	ps := newPlan(c)
 	var runTerms []string
+	nLabels := map[int]int{}
 	nIntrRuns := 0
 	for k := 0; ; k++ {
 		x := newExpectation(ps)
@@ -1324,7 +1330,7 @@ func runGraph(c *Case) lib.Result {
 		if gotClass := strings.SplitN(run.result, ":", 2)[0]; gotClass != wantClass {
 			fail("graph-exec", pre+"run outcome %q, the case says %s", run.result, wantClass)
 		}
-		checkRun(c, x, run, specs, ro.Result, func(sg, f string, a ...any) { fail(sg, pre+f, a...) })
+		checkRun(c, x, run, k == 0, specs, ro.Result, func(sg, f string, a ...any) { fail(sg, pre+f, a...) })
 
 		// observation for the model: per unit (run info) the sequence of (handler, timing) in
 		// the order of invocation; units in ascending order
@@ -1341,11 +1347,19 @@ func runGraph(c *Case) lib.Result {
 			perUnit[e[2]] = append(perUnit[e[2]], fmt.Sprintf("(%d, %d)", e[0], e[1]))
 		}
 		sort.Ints(infos)
-		var evs []string
+		// payload labels, per unit in the order of invocation
+		perUnitL := map[int][]string{}
+		for _, e := range run.evts {
+			i := parseInfo(e.Name)
+			perUnitL[i] = append(perUnitL[i], fmt.Sprint(e.L))
+			nLabels[e.L]++
+		}
+		var evs, lbs []string
 		for _, i := range infos {
 			evs = append(evs, fmt.Sprintf("(%d, [%s])", i, strings.Join(perUnit[i], "; ")))
+			lbs = append(lbs, fmt.Sprintf("(%d, [%s])", i, strings.Join(perUnitL[i], "; ")))
 		}
-		runTerms = append(runTerms, "["+strings.Join(evs, "; ")+"]")
+		runTerms = append(runTerms, "(["+strings.Join(evs, "; ")+"],\n    ["+strings.Join(lbs, "; ")+"])")
 		obs.Runs = append(obs.Runs, ro)
 
 		if out != outIntr {
@@ -1376,7 +1390,7 @@ func runGraph(c *Case) lib.Result {
 		res.CoqTerm = fmt.Sprintf("CaseRuns %s %s\n  [%s]\n  %s 0 0\n  %s\n  [%s]", nlist(c.Globals), coqNeeds(c.Handlers),
 			strings.Join(optT, "; "), lib.CoqBool(c.Paradigm != "invoke"), coqRStages(c.Stages), strings.Join(runTerms, ";\n   "))
 	} else {
-		first := "[]"
+		first := "([], [])"
 		if len(runTerms) > 0 {
 			first = runTerms[0]
 		}
@@ -1432,6 +1446,9 @@ func runGraph(c *Case) lib.Result {
 		fmt.Sprintf("globals:%d", len(c.Globals)), "class:" + obs.Class, fmt.Sprintf("dag:%v", c.Dag), fmt.Sprintf("chain:%v", c.Chain),
 		fmt.Sprintf("store:%v", c.Store), fmt.Sprintf("eager:%v", c.Eager), fmt.Sprintf("runs:%d", len(runs)),
 		fmt.Sprintf("interrupted-runs:%d", nIntrRuns)}
+	if tot := nLabels[lblIn] + nLabels[lblOut] + nLabels[lblErr] + nLabels[lblUnknown] + nLabels[lblOther]; tot > 0 {
+		res.Tags = append(res.Tags, fmt.Sprintf("payloads-identified:%d%%", 10*((nLabels[lblIn]+nLabels[lblOut]+nLabels[lblErr])*10/tot)))
+	}
 	if nShared > 0 {
 		res.Tags = append(res.Tags, "shared-lambda")
 	}
@@ -1451,8 +1468,123 @@ func runGraph(c *Case) lib.Result {
 	return res
 }
 
+// ---------------------------------------------------------------- payloads
+
+// valSpec: what every unit of an uninterrupted run consumed and produced, derived from what the
+// node bodies recorded and from the shape of the graph (fan-in of a Graph merges the maps of the
+// predecessors; a Workflow and a Chain's Parallel put every predecessor under a key of its own).
+type valSpec struct {
+	in, out map[int]string
+}
+
+func copyMap(m vmap) vmap {
+	out := vmap{}
+	mergeInto(out, m)
+	return out
+}
+
+// graphIO walks one graph level; cur is what the level was given; returns what it produced
+func (v *valSpec) graphIO(c *Case, run oneRun, x *expectation, stages [][]*GNode, cur vmap, keyed bool) (vmap, bool) {
+	for _, st := range stages {
+		var outs []vmap
+		okAll := true
+		for _, n := range st {
+			if cur != nil {
+				v.in[n.UID] = render(cur)
+			}
+			var o vmap
+			switch n.Kind {
+			case "pass":
+				o = cur
+			case "lambda":
+				if recs := run.execs[n.UID]; n.Shared == 0 && len(recs) == 1 && !recs[0].Failed {
+					o = recs[0].OutV
+				}
+			case "sub":
+				if n.Typed == "tools" {
+					last := n.Stages[2][0]
+					if recs := run.execs[last.UID]; len(recs) == 1 && !recs[0].Failed {
+						o = recs[0].OutV
+					}
+				} else {
+					o, _ = v.graphIO(c, run, x, n.Stages, cur, c.Eager)
+				}
+			}
+			if o == nil || x.failed[n.UID] {
+				okAll = false
+				continue
+			}
+			if n.Kind != "pass" {
+				v.out[n.UID] = render(o)
+			}
+			outs = append(outs, o)
+		}
+		if !okAll || len(outs) != len(st) {
+			return nil, false
+		}
+		next := vmap{}
+		switch {
+		case len(st) == 1 && keyed:
+			next = copyMap(outs[0])
+		case keyed:
+			for i, n := range st {
+				next[fmt.Sprintf("p%d", n.UID)] = copyMap(outs[i])
+			}
+		default:
+			for _, o := range outs {
+				mergeInto(next, copyMap(o))
+			}
+		}
+		cur = next
+	}
+	return cur, cur != nil
+}
+
+func newValSpec(c *Case, run oneRun, x *expectation) *valSpec {
+	v := &valSpec{in: map[int]string{}, out: map[int]string{}}
+	v.in[0] = "in=abcdef"
+	if out, ok := v.graphIO(c, run, x, c.Stages, vmap{"in": "abcdef"}, c.Eager || c.Chain); ok {
+		v.out[0] = render(out)
+	}
+	// tool calls and ToolsNodes
+	for uid, k := range x.kind {
+		switch k {
+		case "call":
+			if recs := run.execs[uid]; len(recs) == 1 {
+				v.in[uid] = recs[0].In
+				if !recs[0].Failed {
+					v.out[uid] = recs[0].Out
+				}
+			}
+		case "tools":
+			v.in[uid], v.out[uid] = "<*schema.Message>", "<[]*schema.Message>"
+		case "lambda":
+			if n := x.node[uid]; n != nil && n.Shared == 0 {
+				if recs := run.execs[uid]; len(recs) == 1 {
+					v.in[uid] = recs[0].In
+					if !recs[0].Failed {
+						v.out[uid] = recs[0].Out
+					}
+				}
+			}
+		}
+	}
+	return v
+}
+
+// payload labels of an event (what the model's event carries): 0 = the payload the unit consumed,
+// 1 = the payload it produced, 2 = the error it ended with, 8 = not determined (a stream copy the
+// handler did not read to the end, a unit whose value the harness cannot derive), 9 = something else
+const (
+	lblIn      = 0
+	lblOut     = 1
+	lblErr     = 2
+	lblUnknown = 8
+	lblOther   = 9
+)
+
 // checkRun: the property on the events of one run (x = the units the run executes)
-func checkRun(c *Case, x *expectation, run oneRun, specs map[int]HSpec, result string, fail func(sg, f string, a ...any)) {
+func checkRun(c *Case, x *expectation, run oneRun, first bool, specs map[int]HSpec, result string, fail func(sg, f string, a ...any)) {
 	type hk struct {
 		h    int
 		name string
@@ -1461,6 +1593,31 @@ func checkRun(c *Case, x *expectation, run oneRun, specs map[int]HSpec, result s
 	known := map[string]int{}
 	for uid := range x.paths {
 		known[unitName(uid)] = uid
+	}
+	// what every unit consumed / produced: derived for the first run of a sequence (a resumed run
+	// starts from values kept in the checkpoint: there only what the node bodies recorded is used)
+	vals := newValSpec(c, run, x)
+	if !first {
+		sub := &valSpec{in: map[int]string{}, out: map[int]string{}}
+		for uid, k := range x.kind {
+			if k == "lambda" || k == "call" || k == "tools" {
+				if v, ok := vals.in[uid]; ok {
+					sub.in[uid] = v
+				}
+				if v, ok := vals.out[uid]; ok {
+					sub.out[uid] = v
+				}
+			}
+		}
+		// a lambda's own record of what it consumed holds in every run
+		for uid, k := range x.kind {
+			if n := x.node[uid]; k == "lambda" && n != nil && n.Shared == 0 {
+				if recs := run.execs[uid]; len(recs) == 1 {
+					sub.in[uid] = recs[0].In
+				}
+			}
+		}
+		vals = sub
 	}
 	sawEnd := map[string]bool{}
 	for _, e := range run.evts {
@@ -1502,28 +1659,44 @@ func checkRun(c *Case, x *expectation, run oneRun, specs map[int]HSpec, result s
 		if e.Comp != wantComp {
 			fail("graph-wrongnode", "handler %d unit %s: component %q, want %q", e.H, e.Name, e.Comp, wantComp)
 		}
-		// payload: what the unit itself consumed / produced
-		if !e.Full {
-			continue
-		}
-		if n := x.node[uid]; n != nil && n.Kind == "lambda" && n.Shared == 0 {
-			recs := run.execs[uid]
-			if len(recs) == 1 {
-				if (e.T == 0 || e.T == 3) && e.Payload != recs[0].In {
-					fail("graph-payload", "handler %d unit %s start payload %q, the node consumed %q", e.H, e.Name, e.Payload, recs[0].In)
+		// payload: what the unit itself consumed / produced / ended with
+		e.L = lblUnknown
+		switch {
+		case e.T == 2:
+			want := "failure"
+			switch x.errKind[uid] {
+			case outIntr:
+				want = "interrupt"
+			case outFail:
+				if x.badOpts[uid] {
+					want = "error"
 				}
-				if (e.T == 1 || e.T == 4) && e.Payload != recs[0].Out {
-					fail("graph-payload", "handler %d unit %s end payload %q, the node produced %q", e.H, e.Name, e.Payload, recs[0].Out)
+			}
+			e.L = lblErr
+			if e.Payload != want {
+				e.L = lblOther
+				fail("graph-payload", "handler %d unit %s: OnError with an error of class %q, the unit ends with %q", e.H, e.Name, e.Payload, want)
+			}
+		case !e.Full || vals == nil:
+		case e.T == 0 || e.T == 3:
+			if want, ok := vals.in[uid]; ok {
+				e.L = lblIn
+				if e.Payload != want {
+					e.L = lblOther
+					fail("graph-payload", "handler %d unit %s start payload %q, the unit consumed %q", e.H, e.Name, e.Payload, want)
+				}
+			}
+		default:
+			if want, ok := vals.out[uid]; ok {
+				e.L = lblOut
+				if e.Payload != want {
+					e.L = lblOther
+					fail("graph-payload", "handler %d unit %s end payload %q, the unit produced %q", e.H, e.Name, e.Payload, want)
 				}
 			}
 		}
-		if uid == 0 {
-			if (e.T == 0 || e.T == 3) && e.Payload != "in=abcdef" {
-				fail("graph-payload", "handler %d graph start payload %q, want \"in=abcdef\"", e.H, e.Payload)
-			}
-			if (e.T == 1 || e.T == 4) && "ok:"+e.Payload != result {
-				fail("graph-payload", "handler %d graph end payload %q, result %q", e.H, e.Payload, result)
-			}
+		if uid == 0 && e.Full && (e.T == 1 || e.T == 4) && "ok:"+e.Payload != result {
+			fail("graph-payload", "handler %d graph end payload %q, result %q", e.H, e.Payload, result)
 		}
 	}
 	uids := make([]int, 0, len(x.paths))
